@@ -620,9 +620,8 @@ func propC04(cx *sim.Ctx) {
 		cx.Fail("C04/panic/pretty.JSON", fmt.Sprint(p), attrs)
 		return
 	}
-	// pretty always sorts object members (in aligned layout by the encoded key text, so the raw-key
-	// order oracle is applied to the oj writers only); determinism is required here
-	judgeText("pretty.JSON", []byte(pmem), false)
+	// pretty always sorts object members; with Sort the property asks for ascending key order
+	judgeText("pretty.JSON", []byte(pmem), c.Opt.Sort)
 	{
 		optP2 := c.Opt
 		pmem2, _ := guardStr(func() string { return pretty.JSON(data, parg, c.Align, &optP2) })
